@@ -79,6 +79,26 @@ def run(tier, seed):
             src = A.layout(A.render_prog(p, cpu, variant=i), i)
             meta[cid] = (i, cpu, bpa, big, names, src)
             cases.append((cid, "syms=%s imgmax=70000" % ";".join(names), src))
+    # translation family (AsmData!ShiftOk): programs without `$` / label operands, once as they are and once with every
+    # .org moved up by 2^31 bytes
+    BASE = 1 << 31
+
+    def movable(p):
+        return all(it["k"] in ("num", "str") for s0 in p if s0["k"] == "data" for it in s0["items"]) and \
+            not any(s0["k"] == "fill" and isinstance(s0.get("v"), dict) for s0 in p)
+
+    def shifted(p, bpa):
+        return [dict(s0, a=s0["a"] + BASE // bpa) if s0["k"] == "org" else s0 for s0 in p]
+    smeta = {}
+    mov = [(i, p) for i, p in enumerate(allp) if len(p) >= 2 and movable(p)]
+    for i, p in (mov if tier == "thorough" else rnd.sample(mov, min(len(mov), 700))):
+        cpu, bpa, big = CARRIERS[i % len(CARRIERS)]
+        names = A.label_names(p)
+        for half, prog in (("lo", p), ("hi", [dict(k="org", a=BASE // bpa)] + shifted(p, bpa))):
+            cid = "t%d.%s" % (i, half)
+            src = A.render_prog(prog, cpu, variant=i)
+            cases.append((cid, "syms=%s imgmax=70000" % ";".join(names), src))
+            smeta[cid] = (i, cpu, bpa, names, src)
     obs = C.conform_parallel(vdir, "asm", cases, rd, "c05")
     byid = {o["case"]: o for o in obs}
     if len(byid) != len(cases):
@@ -95,8 +115,28 @@ def run(tier, seed):
             continue
         events.append({"id": cid, "bpa": bpa, "big": big, "prog": allp[i], "obs": ob})
 
+    def split(rec, names):
+        if rec.get("died") or rec.get("trunc"):
+            return None
+        if rec["r1"] != 0 or rec["r2"] != 0:
+            return {"k": "rej", "img": [], "syms": [], "low": {"ah": 0, "al": 0}, "high": {"ah": 0, "al": 0}}
+        hl = lambda a: {"ah": (a >> 16) & 0xffff, "al": a & 0xffff}
+        return {"k": "ok", "img": [dict(hl(a), d=list(bytes.fromhex(h))) for a, h in rec["img"]],
+                "syms": [dict(hl(rec["sym2"][n]), n=n) for n in names if rec["sym2"].get(n) is not None],
+                "low": hl(rec["low"]), "high": hl(rec["high"])}
+    nshift = 0
+    for cid in [c for c in smeta if c.endswith(".lo")]:
+        i, cpu, bpa, names, src = smeta[cid]
+        hid = cid[:-3] + ".hi"
+        lo, hi = split(byid[cid], names), split(byid[hid], names)
+        if lo is None or hi is None:
+            if byid[hid].get("died"):
+                chk.report(key_of(allp[i]) + "@" + cpu + "+2^31", "died on\n" + smeta[hid][4], dict(source=smeta[hid][4], observed=byid[hid]))
+            continue
+        events.append({"id": "t%d" % i, "bpa": bpa, "lo": lo, "hi": hi})
+        nshift += 1
     # canaries: flip one image byte / move one symbol / swap accept-reject of real observations
-    oks = [e for e in events if e["obs"]["k"] == "ok" and e["obs"]["img"]]
+    oks = [e for e in events if "obs" in e and e["obs"]["k"] == "ok" and e["obs"]["img"]]
     canaries = set()
     for e in rnd.sample(oks, min(30, len(oks))):
         c = json.loads(json.dumps(e))
@@ -112,6 +152,12 @@ def run(tier, seed):
         canaries.add(c["id"])
         events.append(c)
 
+    for e in rnd.sample([x for x in events if "hi" in x and x["hi"]["k"] == "ok" and x["hi"]["img"]], 6):
+        c = json.loads(json.dumps(e))
+        c["id"] = "canary." + e["id"]
+        c["hi"]["img"][0]["al"] ^= 4
+        canaries.add(c["id"])
+        events.append(c)
     verdicts, runs = C.tlc_accept("TraceAsmData", "trace_AsmData.cfg", events, rd, "c05")
     for r in runs:
         chk.add_tlc(r)
@@ -122,7 +168,12 @@ def run(tier, seed):
 
     # report: a failing program is attributed to a statement that already fails on its own
     # (same carrier), otherwise to the whole program; shortest programs first
-    fails = [(cid, v) for cid, v in bad.items() if cid not in canaries]
+    for cid, v in sorted(bad.items()):
+        if cid in canaries or not cid.startswith("t"):
+            continue
+        i, cpu, bpa, names, src = smeta[cid + ".hi"]
+        chk.report("shift:" + key_of(allp[i])[:150] + "@" + cpu, "%s (.%s)\n%s" % (v["why"], cpu, src), dict(source=src, low_source=smeta[cid + ".lo"][4], cpu=cpu, why=v["why"]))
+    fails = [(cid, v) for cid, v in bad.items() if cid not in canaries and not cid.startswith("t")]
     fails.sort(key=lambda cv: (len(allp[meta[cv[0]][0]]), cv[0]))
     single = {}          # (stmt json) -> set of cpus where the one-statement program fails
     for cid, v in fails:
@@ -146,7 +197,7 @@ def run(tier, seed):
                    dict(source=src, cpu=cpu, why=v["why"], observed=ob, program=p))
 
     chk.cov.update(dict(
-        evaluations=len(cases),
+        evaluations=len(cases), translation_pairs=nshift,
         distinct_nontrivial=len([p for p in allp if len(p) >= 2]),
         rule="TLC enumerates all programs of 1-2 statements over a 141-statement alphabet (BFS) and draws "
              "programs of up to 14 statements (simulation, seeded); non-trivial = at least two statements; "
@@ -157,5 +208,5 @@ def run(tier, seed):
         exhaustive=False))
     chk.samples = [meta[c][5] for c in rnd.sample(sorted(meta), 4)]
     chk.assumptions = ["renderer nv/asmtext.py and the image/symbol reader of harness/m_asm.cpp are trusted",
-                       "addresses below 2^31 only (TLC integers)"]
+                       "Denote is evaluated on addresses below 2^31 (TLC integers); the upper half of the address space through AsmData!ShiftOk (programs without $ / label operands)"]
     return chk.finish()
